@@ -558,7 +558,7 @@ def emit_fn(out, entry, mode, stats, canary=False):
             m = re.match(r'"(.*)"\s*(?:#(\d+))?$', b.arg)
             if not m:
                 raise SystemExit(f"{b.file}:{b.line}: //@{b.kind} needs a quoted snippet")
-            r = find_snippet(sf, bo + 1, last, m.group(1), int(m.group(2) or 1))
+            r = find_snippet(sf, bo + 1, last, m.group(1).replace('\\"', '"'), int(m.group(2) or 1))
             if r is None:
                 raise LostAnchor(f"{entry.id}: snippet {m.group(1)!r} not found")
             pos = r[0] if b.kind == "before" else r[1] + 1
@@ -568,7 +568,7 @@ def emit_fn(out, entry, mode, stats, canary=False):
             m = re.match(r'"(.*)"\s*(?:#(\d+))?$', b.arg)
             if not m:
                 raise SystemExit(f"{b.file}:{b.line}: //@{b.kind} needs a quoted arm pattern")
-            r = find_snippet(sf, bo + 1, last, m.group(1), int(m.group(2) or 1))
+            r = find_snippet(sf, bo + 1, last, m.group(1).replace('\\"', '"'), int(m.group(2) or 1))
             if r is None:
                 raise LostAnchor(f"{entry.id}: arm {m.group(1)!r} not found")
             j = r[1] + 1
